@@ -1,3 +1,4 @@
+import math
 from abc import ABC, abstractmethod
 from dataclasses import dataclass, field
 from typing import TYPE_CHECKING, Any, TypeAlias
@@ -78,6 +79,14 @@ class ConstValue(ConstBase):
     # TODO: We will need a proper Guppy representation of this in the future
     value: Any
 
+    def __eq__(self, other: object) -> bool:
+        # Python considers `0.0 == -0.0`, but they are different constants
+        if not isinstance(other, ConstValue):
+            return NotImplemented
+        return self.ty == other.ty and _distinguish_zeros(
+            self.value
+        ) == _distinguish_zeros(other.value)
+
     def cast(self) -> "Const":
         """Casts an implementor of `ConstBase` into a `Const`."""
         return self
@@ -85,6 +94,15 @@ class ConstValue(ConstBase):
     def transform(self, transformer: Transformer, /) -> "Const":
         """Accepts a transformer on this constant."""
         return transformer.transform(self) or self
+
+
+def _distinguish_zeros(v: Any) -> Any:
+    """Pairs every float in a constant value with its sign bit."""
+    if isinstance(v, float):
+        return (v, math.copysign(1.0, v))
+    if isinstance(v, tuple):
+        return tuple(_distinguish_zeros(x) for x in v)
+    return v
 
 
 @dataclass(frozen=True)
